@@ -74,6 +74,8 @@ def _alphabet() -> Dict[str, Dict[str, Any]]:
     op("conv1d:F", "F.conv1d", "F.conv1d({h}.transpose(1, 2), self.k{i}, padding=1).transpose(1, 2)",
        lambda h, m, i: ((h.transpose(1, 2), g(m, "k", i)), {"padding": 1}), ["self.k{i} = nn.Parameter(torch.randn(D, D, 3))"],
        post=lambda y: y.transpose(1, 2))
+    op("gate_softmax", "gate_softmax", "{h} * F.softmax({h}, dim=-1)", lambda h, m, i: ((h,), {}))
+    op("custom_gelu", "custom_gelu", "custom_gelu({h})", lambda h, m, i: ((h,), {}))
     # ---- unmapped ops
     op("tanh", "torch.tanh", "torch.tanh({h})", lambda h, m, i: ((h,), {}))
     op("relu", "F.relu", "F.relu({h})", lambda h, m, i: ((h,), {}))
@@ -197,10 +199,20 @@ def build(prog: Dict[str, Any], seed: int = 0) -> Tuple[Any, str]:
     import unit_scaling.functional as U
 
     src = emit_source(prog)
-    ns: Dict[str, Any] = dict(torch=torch, nn=nn, F=F, U=U, uu=uu, B=B, S=S, D=D, V=V)
+    import sys
+    import types
+
+    modname = f"verif_prog_{abs(hash(emit_source(prog))) % 10**10}_{seed}"
+    pm = types.ModuleType(modname)  # a real module, so Dynamo can locate functions defined in the program
+    sys.modules[modname] = pm
+    ns = pm.__dict__
+    ns.update(dict(torch=torch, nn=nn, F=F, U=U, uu=uu, B=B, S=S, D=D, V=V))
+    src = "def custom_gelu(x):\n    return F.gelu(x)\n\n\n" + src if "custom_gelu(" in src else src
     exec(compile(src, f"<prog-{abs(hash(src)) % 10**8}>", "exec"), ns)
     torch.manual_seed(1000 + seed)
     m = ns["Prog"]()
+    if "custom_gelu" in ns:
+        m.custom_gelu_fn = [ns["custom_gelu"]]  # (in a list: not registered as a method)
     if prog.get("root") == "sequential":
         m = nn.Sequential(m)
     elif prog.get("root") == "torch_sequential":
@@ -247,7 +259,8 @@ class Semantics:
             "U.scaled_dot_product_attention": U.scaled_dot_product_attention, "F.gelu": F.gelu, "F.silu": F.silu,
             "F.softmax": F.softmax, "F.dropout": F.dropout, "F.layer_norm": F.layer_norm, "torch.matmul": torch.matmul,
             "F.conv1d": F.conv1d, "torch.tanh": torch.tanh, "F.relu": F.relu, "F.embedding": F.embedding,
-            "F.mse_loss": F.mse_loss, "F.cross_entropy": F.cross_entropy,
+            "F.mse_loss": F.mse_loss, "F.cross_entropy": F.cross_entropy, "custom_gelu": F.gelu,
+            "gate_softmax": lambda h: h * F.softmax(h, dim=-1),
             "mul": lambda a, b: a * b, "neg": lambda a: -a,
             "reshape": lambda h: h.reshape(B, S, 2, D // 2).reshape(B, S, D),
             "view_t": lambda h: h.transpose(0, 1).contiguous().transpose(0, 1),
